@@ -768,3 +768,217 @@ Section RTCounterAll.
         * rewrite <- Ed. exact Hv.
   Qed.
 End RTCounterAll.
+
+(* ------------------------------------------------------------ one record *)
+
+(* order in which record_lines writes the keys *)
+Definition rank (k : key) : nat :=
+  match k with
+  | KCounter => 0 | KTitle => 1 | KDescription => 2 | KIssue => 3 | KType => 4 | KProgram => 5
+  | KModule => 6 | KVersion => 7 | KDepth => 8 | KError => 9
+  end.
+Definition below (n : nat) (set : list key) : Prop := forall k, In k set -> (rank k < n)%nat.
+
+Lemma below_nil n : below n [].
+Proof. intros k []. Qed.
+Lemma below_step n m k (absent : bool) set : below n set -> (rank k < m)%nat -> (n <= m)%nat ->
+  below m (if absent then set else k :: set).
+Proof.
+  intros Hb Hk Hn x Hin. destruct absent.
+  - specialize (Hb x Hin). lia.
+  - destruct Hin as [<-|Hin]; [exact Hk | specialize (Hb x Hin); lia].
+Qed.
+Lemma below_not_set n k set : below n set -> (n <= rank k)%nat -> key_set k set = false.
+Proof.
+  intros Hb Hn. destruct (key_set k set) eqn:E; [|reflexivity].
+  apply key_set_in in E. specialize (Hb k E). lia.
+Qed.
+Lemma below_app n a b : below n a -> below n b -> below n (a ++ b).
+Proof. intros Ha Hb k Hin. apply in_app_or in Hin as [H|H]; auto. Qed.
+Lemma below_repeat n k m : (rank k < n)%nat -> below n (repeat k m).
+Proof. intros Hk x Hin. apply repeat_spec in Hin. subst. exact Hk. Qed.
+
+Lemma repeat_snoc {A} (x : A) n l : repeat x n ++ x :: l = x :: repeat x n ++ l.
+Proof. induction n as [|n IH]; [reflexivity|]. cbn [repeat app]. rewrite IH. reflexivity. Qed.
+
+Section RTRecord.
+  Variable pf : bytes -> option N.
+  Variable rf : N -> bytes.
+
+  Lemma steps_opt_gen st k (absent : bool) v fs c :
+    st_acc st = [] -> fstyle_ok fs = true ->
+    (absent = false -> plain_value v = true /\ set_field pf k v (st_cur st) = inl c) ->
+    (absent = true -> c = st_cur st) ->
+    key_set k (st_set st) && negb (is_slice k) = false ->
+    steps pf st (if absent then [] else [field_line k v fs])
+    = Some (mkSt (st_done st) c (if absent then st_set st else k :: st_set st) []).
+  Proof.
+    intros Ha Hfs Hp Hab Hset. destruct absent.
+    - rewrite (Hab eq_refl). cbn [steps]. destruct st; cbn in Ha; subst; reflexivity.
+    - destruct (Hp eq_refl) as [Hv Hf]. cbn [steps]. rewrite (step_field pf st k v fs c Ha Hfs Hv Hset Hf). reflexivity.
+  Qed.
+
+  Definition with_issue (c : chart) (is : list bytes) : chart :=
+    mkChart (c_title c) (c_description c) is (c_type c) (c_program c) (c_module c) (c_counter c)
+            (c_depth c) (c_error c) (c_version c).
+
+  Lemma steps_issues fs vs : forall st,
+    st_acc st = [] -> fstyle_ok fs = true -> forallb plain_value vs = true ->
+    steps pf st (map (fun v => field_line KIssue v fs) vs)
+    = Some (mkSt (st_done st) (with_issue (st_cur st) (c_issue (st_cur st) ++ vs))
+                 (repeat KIssue (length vs) ++ st_set st) []).
+  Proof.
+    induction vs as [|v vs IH]; intros st Ha Hfs Hall.
+    - cbn [map steps length repeat app]. rewrite app_nil_r.
+      destruct st as [d c s a]; cbn in Ha; subst. destruct c; reflexivity.
+    - cbn [forallb] in Hall. apply andb_true_iff in Hall as [Hv Hall].
+      cbn [map steps].
+      rewrite (step_field pf st KIssue v fs (with_issue (st_cur st) (c_issue (st_cur st) ++ [v])) Ha Hfs Hv).
+      + rewrite IH; try assumption; try reflexivity.
+        cbn [st_done st_cur st_set with_issue c_issue c_title c_description c_type c_program c_module c_counter c_depth c_error c_version length repeat].
+        rewrite <- app_assoc. cbn [app]. rewrite repeat_snoc. reflexivity.
+      + rewrite andb_false_r. reflexivity.
+      + reflexivity.
+  Qed.
+
+  Lemma opt_plain_cases v : opt_plain v = true -> is_empty v = false -> plain_value v = true.
+  Proof. unfold opt_plain. intros H E. rewrite E in H. exact H. Qed.
+
+  Lemma is_empty_true v : is_empty v = true -> v = [].
+  Proof. destruct v; [reflexivity | discriminate]. Qed.
+
+  Theorem steps_record done r sty :
+    valid_record pf rf r = true -> style_ok r sty = true ->
+    exists set, set <> [] /\
+      steps pf (mkSt done empty_chart [] []) (record_lines rf r sty) = Some (mkSt done r set []).
+  Proof.
+    intros Hv Hs.
+    destruct r as [ti de iss ty pr mo cn dp er ve].
+    unfold valid_record in Hv. cbn [c_title c_description c_issue c_type c_program c_module c_counter c_depth c_error c_version] in Hv.
+    apply andb_true_iff in Hv as [Hv Hnon]. apply andb_true_iff in Hv as [Hv Vve].
+    apply andb_true_iff in Hv as [Hv Ver]. apply andb_true_iff in Hv as [Hv Vdp].
+    apply andb_true_iff in Hv as [Hv Vcn]. apply andb_true_iff in Hv as [Hv Vmo].
+    apply andb_true_iff in Hv as [Hv Vpr]. apply andb_true_iff in Hv as [Hv Vty].
+    apply andb_true_iff in Hv as [Hv Vis]. apply andb_true_iff in Hv as [Vti Vde].
+    unfold style_ok in Hs. cbn [c_counter] in Hs.
+    apply andb_true_iff in Hs as [Hs Smulti]. apply andb_true_iff in Hs as [Hs Sind].
+    apply andb_true_iff in Hs as [Hs Sf]. apply andb_true_iff in Hs as [Spre Spost].
+    assert (forall k, fstyle_ok (rs_f sty k) = true) as Hfs.
+    { intros k. rewrite forallb_forall in Sf. apply Sf. destruct k; cbn; auto 12. }
+    unfold record_lines.
+    cbn [c_title c_description c_issue c_type c_program c_module c_counter c_depth c_error c_version].
+    (* optional separator: an empty record is skipped *)
+    rewrite steps_app.
+    assert (steps pf (mkSt done empty_chart [] []) (if rs_sep sty then [sep_line] else [])
+            = Some (mkSt done empty_chart [] [])) as -> by (destruct (rs_sep sty); reflexivity).
+    (* fillers *)
+    rewrite steps_app, (steps_fillers pf (mkSt done empty_chart [] []) _ eq_refl Spre).
+    (* counter *)
+    rewrite steps_app, (steps_counter_lines pf (mkSt done empty_chart [] []) cn sty eq_refl (Hfs KCounter) Sind Vcn Smulti eq_refl).
+    cbn [st_done st_cur st_set].
+    assert ((if is_empty cn then empty_chart else with_counter empty_chart cn)
+            = mkChart [] [] [] [] [] [] cn 0%Z 0 []) as -> by (destruct cn; reflexivity).
+    pose proof (below_step 0 1 KCounter (is_empty cn) [] (below_nil 0) ltac:(cbn; lia) ltac:(lia)) as B1.
+    set (s1 := if is_empty cn then [] else [KCounter]) in *.
+    (* title *)
+    rewrite steps_app. unfold opt_line at 1.
+    rewrite steps_opt_gen with (c := (mkChart ti [] [] [] [] [] cn 0%Z 0 [])); [| reflexivity | apply Hfs | | | ].
+    2:{ intros E. split; [apply opt_plain_cases; assumption | reflexivity]. }
+    2:{ intros E. apply is_empty_true in E. subst. reflexivity. }
+    2:{ cbn [st_set]. rewrite (below_not_set 1 KTitle s1 B1); [reflexivity | cbn; lia]. }
+    cbn [st_done st_cur st_set].
+    pose proof (below_step 1 2 KTitle (is_empty ti) s1 B1 ltac:(cbn; lia) ltac:(lia)) as B2.
+    set (s2 := if is_empty ti then s1 else KTitle :: s1) in *.
+    (* description *)
+    rewrite steps_app. unfold opt_line at 1.
+    rewrite steps_opt_gen with (c := (mkChart ti de [] [] [] [] cn 0%Z 0 [])); [| reflexivity | apply Hfs | | | ].
+    2:{ intros E. split; [apply opt_plain_cases; assumption | reflexivity]. }
+    2:{ intros E. apply is_empty_true in E. subst. reflexivity. }
+    2:{ cbn [st_set]. rewrite (below_not_set 2 KDescription s2 B2); [reflexivity | cbn; lia]. }
+    cbn [st_done st_cur st_set].
+    pose proof (below_step 2 3 KDescription (is_empty de) s2 B2 ltac:(cbn; lia) ltac:(lia)) as B3.
+    set (s3 := if is_empty de then s2 else KDescription :: s2) in *.
+    (* issues *)
+    rewrite steps_app, steps_issues; [| reflexivity | apply Hfs | exact Vis].
+    cbn [st_done st_cur st_set with_issue c_issue c_title c_description c_type c_program c_module c_counter c_depth c_error c_version app].
+    assert (below 4 (repeat KIssue (length iss) ++ s3)) as B4.
+    { apply below_app; [apply below_repeat; cbn; lia | intros k Hin; specialize (B3 k Hin); lia]. }
+    set (s4 := repeat KIssue (length iss) ++ s3) in *.
+    (* type *)
+    rewrite steps_app. unfold opt_line at 1.
+    rewrite steps_opt_gen with (c := (mkChart ti de iss ty [] [] cn 0%Z 0 [])); [| reflexivity | apply Hfs | | | ].
+    2:{ intros E. split; [apply opt_plain_cases; assumption | reflexivity]. }
+    2:{ intros E. apply is_empty_true in E. subst. reflexivity. }
+    2:{ cbn [st_set]. rewrite (below_not_set 4 KType s4 B4); [reflexivity | cbn; lia]. }
+    cbn [st_done st_cur st_set].
+    pose proof (below_step 4 5 KType (is_empty ty) s4 B4 ltac:(cbn; lia) ltac:(lia)) as B5.
+    set (s5 := if is_empty ty then s4 else KType :: s4) in *.
+    (* program *)
+    rewrite steps_app. unfold opt_line at 1.
+    rewrite steps_opt_gen with (c := (mkChart ti de iss ty pr [] cn 0%Z 0 [])); [| reflexivity | apply Hfs | | | ].
+    2:{ intros E. split; [apply opt_plain_cases; assumption | reflexivity]. }
+    2:{ intros E. apply is_empty_true in E. subst. reflexivity. }
+    2:{ cbn [st_set]. rewrite (below_not_set 5 KProgram s5 B5); [reflexivity | cbn; lia]. }
+    cbn [st_done st_cur st_set].
+    pose proof (below_step 5 6 KProgram (is_empty pr) s5 B5 ltac:(cbn; lia) ltac:(lia)) as B6.
+    set (s6 := if is_empty pr then s5 else KProgram :: s5) in *.
+    (* module *)
+    rewrite steps_app. unfold opt_line at 1.
+    rewrite steps_opt_gen with (c := (mkChart ti de iss ty pr mo cn 0%Z 0 [])); [| reflexivity | apply Hfs | | | ].
+    2:{ intros E. split; [apply opt_plain_cases; assumption | reflexivity]. }
+    2:{ intros E. apply is_empty_true in E. subst. reflexivity. }
+    2:{ cbn [st_set]. rewrite (below_not_set 6 KModule s6 B6); [reflexivity | cbn; lia]. }
+    cbn [st_done st_cur st_set].
+    pose proof (below_step 6 7 KModule (is_empty mo) s6 B6 ltac:(cbn; lia) ltac:(lia)) as B7.
+    set (s7 := if is_empty mo then s6 else KModule :: s6) in *.
+    (* version *)
+    rewrite steps_app. unfold opt_line at 1.
+    rewrite steps_opt_gen with (c := (mkChart ti de iss ty pr mo cn 0%Z 0 ve)); [| reflexivity | apply Hfs | | | ].
+    2:{ intros E. split; [apply opt_plain_cases; assumption | reflexivity]. }
+    2:{ intros E. apply is_empty_true in E. subst. reflexivity. }
+    2:{ cbn [st_set]. rewrite (below_not_set 7 KVersion s7 B7); [reflexivity | cbn; lia]. }
+    cbn [st_done st_cur st_set].
+    pose proof (below_step 7 8 KVersion (is_empty ve) s7 B7 ltac:(cbn; lia) ltac:(lia)) as B8.
+    set (s8 := if is_empty ve then s7 else KVersion :: s7) in *.
+    (* depth *)
+    rewrite steps_app.
+    rewrite steps_opt_gen with (c := (mkChart ti de iss ty pr mo cn dp 0 ve)); [| reflexivity | apply Hfs | | | ].
+    2:{ intros E. apply Z.eqb_neq in E. split; [apply render_int_plain; assumption|].
+        cbn [set_field st_cur]. rewrite (parse_render_int dp Vdp). reflexivity. }
+    2:{ intros E. apply Z.eqb_eq in E. subst. reflexivity. }
+    2:{ cbn [st_set]. rewrite (below_not_set 8 KDepth s8 B8); [reflexivity | cbn; lia]. }
+    cbn [st_done st_cur st_set].
+    pose proof (below_step 8 9 KDepth (dp =? 0)%Z s8 B8 ltac:(cbn; lia) ltac:(lia)) as B9.
+    set (s9 := if (dp =? 0)%Z then s8 else KDepth :: s8) in *.
+    (* error *)
+    rewrite steps_app.
+    rewrite steps_opt_gen with (c := (mkChart ti de iss ty pr mo cn dp er ve)); [| reflexivity | apply Hfs | | | ].
+    2:{ intros E. unfold float_ok in Ver. rewrite E in Ver. cbn [orb] in Ver.
+        apply andb_true_iff in Ver as [Hp Hrt]. split; [exact Hp|].
+        cbn [set_field st_cur]. destruct (pf (rf er)) as [g|]; [|discriminate].
+        apply N.eqb_eq in Hrt. subst. reflexivity. }
+    2:{ intros E. apply N.eqb_eq in E. subst. reflexivity. }
+    2:{ cbn [st_set]. rewrite (below_not_set 9 KError s9 B9); [reflexivity | cbn; lia]. }
+    cbn [st_done st_cur st_set].
+    set (s10 := if er =? 0 then s9 else KError :: s9) in *.
+    (* trailing fillers *)
+    rewrite steps_fillers; [| reflexivity | exact Spost].
+    exists s10. split; [|reflexivity].
+    (* the record is not empty, so some key was set *)
+    intros E10.
+    unfold nonempty_record in Hnon.
+    cbn [c_title c_description c_issue c_type c_program c_module c_counter c_depth c_error c_version] in Hnon.
+    unfold s10 in E10. destruct (er =? 0); [|discriminate].
+    unfold s9 in E10. destruct (dp =? 0)%Z; [|discriminate].
+    unfold s8 in E10. destruct (is_empty ve); [|discriminate].
+    unfold s7 in E10. destruct (is_empty mo); [|discriminate].
+    unfold s6 in E10. destruct (is_empty pr); [|discriminate].
+    unfold s5 in E10. destruct (is_empty ty); [|discriminate].
+    unfold s4 in E10. destruct iss as [|i0 iss]; [|discriminate].
+    cbn [length repeat app] in E10.
+    unfold s3 in E10. destruct (is_empty de); [|discriminate].
+    unfold s2 in E10. destruct (is_empty ti); [|discriminate].
+    unfold s1 in E10. destruct (is_empty cn); [|discriminate].
+    discriminate Hnon.
+  Qed.
+End RTRecord.
